@@ -143,7 +143,8 @@ def closure_cases(run, sc, n):
 
 def lookup_cases(run, sc, n):
     rng = run.rng
-    g, _ = W.gen_closed(rng, hostile=False, n_ns=2, n_nodes=8)
+    # half of the graphs define one or two nodes twice (overlapping exports): ids and row positions then differ
+    g, _ = W.gen_closed(rng, hostile=False, n_ns=2, n_nodes=8, features={"repeat_nodes": rng.random() < 0.5})
     # duplicated browse names: within one node class and across classes / namespaces
     keys = list(g["nodes"])
     for _ in range(4):
